@@ -84,6 +84,9 @@ func MPDDiff(mpdOld, mpdNew []byte) (doc *etree.Document, expiration time.Time, 
 }
 
 func checkPatchConditions(oldRoot, newRoot *etree.Element) (expiration time.Time, err error) {
+	if oldRoot == nil || newRoot == nil {
+		return expiration, fmt.Errorf("MPD root element missing")
+	}
 	if oldRoot.Tag != "MPD" || newRoot.Tag != "MPD" {
 		return expiration, fmt.Errorf("not MPD root element in both MPDs")
 	}
